@@ -39,8 +39,10 @@ type simStore struct {
 	data  map[string]string
 	calls int
 	// single-fault plan
-	faultAt    int    // store-call index at which the fault fires (-1: none)
-	faultKind  string // "notfound" | "io" | "io-after" (mutations: error returned after applying)
+	faultAt    int            // store-call index at which the fault fires (-1: none)
+	faultKind  string         // "notfound" | "io" | "io-after" (mutations: error returned after applying)
+	more       map[int]string // further faults by store-call index (multi-fault forks, thorough tier)
+	nfired     int
 	fired      string // description of the fired fault ("" if none yet)
 	crashAfter bool   // die right after the current mutation has been applied
 	log        []string
@@ -59,11 +61,17 @@ func (s *simStore) clone() *simStore {
 func (s *simStore) fault(op, key string) (err error, after bool) {
 	idx := s.calls
 	s.calls++
+	kind := s.faultKind
 	if idx != s.faultAt {
-		return nil, false
+		k2, ok := s.more[idx]
+		if !ok {
+			return nil, false
+		}
+		kind = k2
 	}
-	s.fired = fmt.Sprintf("%s %s(%s)", s.faultKind, op, keyClassC19(key))
-	switch s.faultKind {
+	s.nfired++
+	s.fired = fmt.Sprintf("%d:%s %s(%s)", s.nfired, kind, op, keyClassC19(key))
+	switch kind {
 	case "crash":
 		panic(c19Crash{})
 	case "crash-after":
@@ -150,6 +158,9 @@ func keyClassC19(key string) string {
 type c19Knobs struct {
 	Faults   bool `json:"enumerate_faults"`
 	Restarts bool `json:"enumerate_restarts"`
+	// Multi: random multi-fault placements {relative store-call index -> kind}, each a separate fork of the
+	// whole history under the safety-only oracle (drawn by the generator; thorough tier)
+	Multi []map[string]string `json:"multi_fault_forks,omitempty"`
 }
 
 type c19Step struct {
@@ -175,7 +186,17 @@ var c19Scs = []string{"h0", "h1"}
 const c19NSP = 3
 
 func genC19(g *Rng, tier string) *Plan {
-	p := &Plan{Knobs: mustJSON(c19Knobs{Faults: true, Restarts: true})}
+	kn := c19Knobs{Faults: true, Restarts: true}
+	if tier == "thorough" {
+		for f, nf := 0, 2+g.Intn(3); f < nf; f++ {
+			m := map[string]string{}
+			for q, nq := 0, 2+g.Intn(2); q < nq; q++ {
+				m[fmt.Sprint(g.Intn(60))] = Pick(g, "notfound", "io", "io-after", "crash", "crash-after")
+			}
+			kn.Multi = append(kn.Multi, m)
+		}
+	}
+	p := &Plan{}
 	var steps []c19Step
 	// a short productive prefix most of the time, so that histories reach logged-in states
 	if g.Bool(0.8) {
@@ -265,6 +286,7 @@ func genC19(g *Rng, tier string) *Plan {
 	for _, s := range steps {
 		p.Steps = append(p.Steps, mustJSON(s))
 	}
+	p.Knobs = mustJSON(kn)
 	return p
 }
 
@@ -1138,6 +1160,64 @@ func execC19(t *testing.T, p *Plan) *Result {
 				}
 			}
 			prevCalls = ref.calls[sidx]
+		}
+	}
+	// ---- (iv) random multi-fault placements over the whole history, safety only
+	for fi, placement := range k.Multi {
+		fw := initial.fork()
+		fw.installClock()
+		if err := fw.newServer(); err != nil {
+			panic(err)
+		}
+		fw.store.calls = 0
+		fw.store.more = map[int]string{}
+		for idx, kind := range placement {
+			var n int
+			fmt.Sscan(idx, &n)
+			fw.store.more[n] = kind
+		}
+		res.Extra["multi_fault_forks"]++
+		for i, st := range steps {
+			if st.Op == "restart" {
+				var err error
+				if crashed := guard(func() { err = fw.newServer() }); crashed != nil {
+					if _, ok := crashed.(c19Crash); !ok {
+						panic(crashed)
+					}
+					crashed2 := guard(func() { err = fw.newServer() })
+					if crashed2 != nil {
+						break
+					}
+				}
+				if err != nil {
+					break
+				}
+				fw.maybeReg = nil
+				continue
+			}
+			var exp, obs c19Outcome
+			var dc, well bool
+			var leak string
+			var pan any
+			if hp := guard(func() { exp, obs, dc, leak, well, pan = fw.step(st, res) }); hp != nil {
+				if _, ok := hp.(c19Crash); ok {
+					break // a second crash while the server was starting again: give up on this fork
+				}
+				if _, ok := hp.(error); ok {
+					break // another fault hit the restart after a crash: the server refuses to start, the fork ends
+				}
+				panic(hp)
+			}
+			if fw.faulted && (st.Op == "sso" || st.Op == "shortcut") && fw.lastAlt.Class != "" && obs == fw.lastAlt {
+				continue
+			}
+			if !c19CheckStep(res, i, fmt.Sprintf("multi-fault fork %d", fi), st, exp, obs, dc, leak, well, pan, fw.faulted) {
+				res.logf("multi-fault fork %d %v (last fired %s): step %d %s expect=%s observed=%s", fi, placement, fw.store.fired, i, c19Describe(st), exp, obs)
+				return res
+			}
+		}
+		if fw.store.nfired > 1 {
+			res.fire("multi_fault")
 		}
 	}
 	return res
